@@ -458,7 +458,10 @@ def run(ctx):
         "section 21) and the readability of pl_to_tfm's output, not the content of the property list / font "
         "(codec fidelity is C11): the second half is generator-driven exploration with a protocol-level oracle",
         "property lists are UTF-8 text (the pltotf tool reads its input with read_to_string)",
-        "a call that needs more than 300 s is a hang; slow (super-linear) warning rendering below that is not judged",
+        "a call that needs more than 300 s is a hang; slow (super-linear) warning rendering below that is not judged. "
+        "pl_to_tfm is quadratic in the number of warnings (a LIGTABLE of 70 000 rows, 37 000 'table too long' "
+        "warnings, needs 240 s on an idle machine): the biggest generated table has 36 000 rows so that the verdict "
+        "does not depend on the load of the machine",
         "panic keys: (function and whether it reads back serializer output, source file, message with numbers "
         "replaced by N, source text of the line the panic points at) -- no line numbers",
     ]
